@@ -291,10 +291,12 @@ static void c20nv_random_owner(Buf *b) {
     case 2: case 3: case 4: {
         uint32_t off = rnd(sz), n = chance(15) ? 0 : 1 + rnd(sz - off); if (chance(10)) { off = 0; n = sz; } if (chance(5)) n += 3;
         if (n > sizeof d) n = sizeof d;
+        if (chance(8)) { off = 0xFFFFFFF0u + rnd(16); n = 1 + rnd(0x20); if (n > sizeof d) n = sizeof d; }
         c20_rand_bytes(d, n);
         c20nv_write_client(b, chance(50), idx, off, d, n); break; }
     case 5: case 6: case 7: {
         uint32_t off = rnd(sz), n = chance(12) ? 0 : 1 + rnd(sz - off); if (chance(5)) n += 3;
+        if (chance(10)) { off = 0xFFFFFFF0u + rnd(16); n = 1 + rnd(0x20); }        /* offset + size wraps around 32 bits, under a VALID authorization */
         c20nv_read_client(b, chance(50), idx, off, n); break; }
     case 8: {
         if (chance(50)) { c20_rand_bytes(d, 20); c20nv_write_client(b, 0, T12_NV_INDEX_DIR, 0, d, 20); }
